@@ -595,14 +595,28 @@ def method(E, st, recv: V, name, args, kw, n):
         if name == "decode" and k == "bytes":
             enc = args[0] if args else vstr("utf-8")
             errs = args[1] if len(args) > 1 else vstr("strict")
+            if enc.ty.kind == "opt":
+                for st1, isn in E.branch(st, enc.isnone):
+                    if isn:
+                        yield st1, Raised(Exc(TypeError, origin="decode(None) line %d" % line))
+                    else:
+                        yield from method(E, st1, recv, name, [enc.val] + list(args[1:]), kw, n)
+                return
             strict = errs.t == z3.StringVal("strict")
             ok = ops.UF("decodable", z3.StringSort(), z3.StringSort(), z3.BoolSort())(recv.t, enc.t)
+            known = ops.UF("known_codec", z3.StringSort(), z3.BoolSort())
+            st.assume(known(z3.StringVal("utf-8")))
+            st.assume(known(z3.StringVal("ascii")))
             res = V(STR, ops.UF("bytes_decode_e", z3.StringSort(), z3.StringSort(), z3.StringSort(), z3.StringSort())(recv.t, enc.t, errs.t))
-            for st2, bad in E.branch(st, z3.And(strict, z3.Not(ok))):
-                if bad:
-                    yield st2, Raised(Exc(UnicodeDecodeError, origin="decode line %d" % line))
-                else:
-                    yield st2, res
+            for st1, kn in E.branch(st, known(enc.t)):
+                if not kn:
+                    yield st1, Raised(Exc(LookupError, origin="unknown encoding, decode line %d" % line))
+                    continue
+                for st2, bad in E.branch(st1, z3.And(strict, z3.Not(ok))):
+                    if bad:
+                        yield st2, Raised(Exc(UnicodeDecodeError, origin="decode line %d" % line))
+                    else:
+                        yield st2, res
             return
         if name == "startswith" and k == "bytes":
             yield st, vbool(z3.PrefixOf(args[0].t, recv.t))
